@@ -4,6 +4,7 @@ package harness
 
 import (
 	"fmt"
+	"math/big"
 	"math/rand"
 	"strings"
 	"testing"
@@ -13,6 +14,7 @@ import (
 	consensustypes "github.com/palomachain/paloma/v2/x/consensus/types"
 	evmtypes "github.com/palomachain/paloma/v2/x/evm/types"
 	treasurytypes "github.com/palomachain/paloma/v2/x/treasury/types"
+	valsettypes "github.com/palomachain/paloma/v2/x/valset/types"
 )
 
 // C09 — begin/end-block never aborts: hostile-value fuzzing of the full application at every
@@ -101,8 +103,25 @@ func TestC09(t *testing.T) {
 			c09ZooCase(t, r, seed, rng, maxH)
 			continue
 		}
-		fa := NewFullApp(t, FullAppOpts{NumValidators: 4, NumUsers: 3, Seed: seed % 1000})
-		fa.KeepAliveAll()
+		opts := FullAppOpts{NumValidators: 4, NumUsers: 3, Seed: seed % 1000}
+		silentWhale := c%4 == 2
+		if silentWhale {
+			// one validator holds well over 25% of the power and its relayer never reports in: the
+			// liveness sweep cannot jail it and must carry on regardless
+			opts.ValidatorStake = []sdkmath.Int{sdkmath.NewInt(5_000_000_000_000), sdkmath.NewInt(1_000_000_000_000), sdkmath.NewInt(1_000_000_000_000), sdkmath.NewInt(1_000_000_000_000)}
+		}
+		fa := NewFullApp(t, opts)
+		if silentWhale {
+			var ka []FATx
+			for i := 1; i < len(fa.Vals); i++ {
+				v := fa.ValidatorOperator(i)
+				ka = append(ka, FATx{Msgs: []sdk.Msg{&valsettypes.MsgKeepAlive{PigeonVersion: FAPigeonVersion, Metadata: FAMeta(v.Addr, v.Addr)}}, Signers: []*FAAccount{v}})
+			}
+			fa.DeliverTxs(ka...)
+			r.Stat("case.silent_whale")
+		} else {
+			fa.KeepAliveAll()
+		}
 		if _, err := fa.ActivateEVMChain(FAEvmChain{RefID: "test-chain"}); err != nil {
 			t.Fatal(err)
 		}
@@ -141,6 +160,16 @@ func TestC09(t *testing.T) {
 			mults := []string{"1.1", "-1", "-0.5", "1000000000000000000000000000000", "18446744073709551616", "0.000000000000000001", "omitted", "0"}
 			ms := mults[rng.Intn(len(mults))]
 			est := c09Estimates[rng.Intn(len(c09Estimates))]
+			if rng.Intn(3) == 0 {
+				// a product strictly between 2^64-1 and 2^64: the range check and the round-up must agree
+				es := []uint64{131072, 3, 1 << 32, 1000003, 21000}
+				est = es[rng.Intn(len(es))]
+				num := new(big.Int).Lsh(big.NewInt(1), 64)
+				num.Mul(num, big.NewInt(2)).Sub(num, big.NewInt(1))                        // 2*2^64 - 1  (= 2*(2^64 - 0.5))
+				num.Mul(num, new(big.Int).Exp(big.NewInt(10), big.NewInt(18), nil))        // scaled by 10^18
+				num.Quo(num, new(big.Int).Mul(big.NewInt(2), new(big.Int).SetUint64(est))) // floor((2^64-0.5)/est * 10^18)
+				ms = sdkmath.LegacyNewDecFromBigIntWithPrec(num, 18).String()
+			}
 			history = append(history, fmt.Sprintf("opening: all fees %s, all estimates %d", ms, est))
 			var txs []FATx
 			for i := range fa.Vals {
@@ -192,7 +221,11 @@ func TestC09(t *testing.T) {
 			} else {
 				r.Op(fmt.Sprintf("block %d %d", b.Height, len(b.Txs)), "ok")
 			}
-			r.Stat("opening." + ms)
+			if len(ms) > 24 {
+				r.Stat("opening.boundary_product")
+			} else {
+				r.Stat("opening." + ms)
+			}
 		}
 		for fa.Height() < maxH && !aborted {
 			// jump to just before an interesting height class now and then
@@ -212,7 +245,7 @@ func TestC09(t *testing.T) {
 					break
 				}
 			}
-			if fa.Height()%1500 == 0 {
+			if fa.Height()%1500 == 0 && !silentWhale {
 				fa.KeepAliveAll()
 			}
 			// a reachable state: a logic call waits in the queue (what a scheduler job execution enqueues)
